@@ -356,6 +356,16 @@ def uniform_tree(ns, ops_for, self_loops_by_n, orders_for, dag_only_n=(), names=
     return tree, to_sample
 
 
+def _restrict_ops(tree, ops_of_prefix):
+    """wrap a uniform tree: the term-shape menu (level 3) becomes ops_of_prefix(prefix)"""
+    def wrapped(p):
+        if len(p) == 3:
+            return ops_of_prefix(p)
+        return tree(p)
+
+    return wrapped
+
+
 def all_orders(n):
     return [list(p) for p in itertools.permutations(range(n))]
 
@@ -539,10 +549,12 @@ def run(ctx):
         t, s = uniform_tree([4], lambda n, h: ["sum"], {4: False}, o4)
     else:
         t, s = uniform_tree([4], lambda n, h: ALL3, {4: False}, lambda n, m, ac: all_orders(4))
+        # (cyclic digraphs raise before any term is evaluated: one term shape is enough for them)
+        t = _restrict_ops(t, lambda p: ALL3 if p[1][1] else ["sum"])
     phases.append(("uniform-n4", t, s, ""))
     if not q:
-        t, s = uniform_tree([5], lambda n, h: ["sum"], {5: False}, lambda n, m, ac: rot_orders(5),
-                            dag_only_n=(5,))
+        o5 = [[0, 1, 2, 3, 4], [4, 3, 2, 1, 0], [2, 3, 4, 0, 1], [1, 0, 4, 3, 2]]
+        t, s = uniform_tree([5], lambda n, h: ["sum"], {5: False}, lambda n, m, ac: o5, dag_only_n=(5,))
         phases.append(("uniform-n5-dags", t, s, ""))
     # C: names spread over the scopes (dependencies point to the same or an outer scope)
     t, s = mixed_tree(3)
@@ -573,7 +585,7 @@ def run(ctx):
               n_names_dags_only=None if q else 5,
               term_shapes="sum/prod/mm" + (" (prod/mm only without self references; n=4: sum)" if q else ""),
               key_orders="all n! for n<=3" + ("; n=4: 8 rotations/reversals for DAGs, 1 for cyclic digraphs" if q
-                                               else "; n=4: all 24; n=5: 10 rotations/reversals"),
+                                               else "; n=4: all 24; n=5: 4 orders"),
               scopes=SCOPE_NAMES, mixed_placements="n=3" + ("" if q else ", n=4 (2 key orders)"),
               entry_points=["Spec._spec_eval_expressions(einsum_name='E'|None)",
                             "Spec.calculate_component_costs", "Spec.from_yaml + _spec_eval_expressions"])
